@@ -6,16 +6,21 @@ use std::panic::{self, AssertUnwindSafe};
 use asca::verif;
 
 #[derive(Clone, Debug)]
-pub struct PanicSite { pub file: String, pub line: u32, pub msg: String }
+pub struct PanicSite { pub file: String, pub line: u32, pub msg: String, pub func: String }
 
-thread_local! { static LAST: RefCell<Option<PanicSite>> = const { RefCell::new(None) }; }
+thread_local! { static LAST: RefCell<Option<PanicSite>> = const { RefCell::new(None) }; static LAST_TICKS: std::cell::Cell<u64> = const { std::cell::Cell::new(0) }; }
+
+/// ticks consumed by the most recent `guard` on this thread
+pub fn last_ticks() -> u64 { LAST_TICKS.with(|c| c.get()) }
 
 pub fn install_hook() {
     panic::set_hook(Box::new(|info| {
         let (file, line) = info.location().map(|l| (l.file().to_string(), l.line())).unwrap_or_default();
         let msg = if let Some(s) = info.payload().downcast_ref::<&str>() { s.to_string() }
                   else if let Some(s) = info.payload().downcast_ref::<String>() { s.clone() } else { "?".into() };
-        LAST.with(|l| *l.borrow_mut() = Some(PanicSite { file, line, msg }));
+        // budget exhaustion is not a defect of the code under test: no backtrace needed (and they are frequent)
+        let func = if msg.starts_with("VERIF_BUDGET") { String::new() } else { innermost_asca_fn(&format!("{}", std::backtrace::Backtrace::force_capture())) };
+        LAST.with(|l| *l.borrow_mut() = Some(PanicSite { file, line, msg, func }));
     }));
 }
 
@@ -51,11 +56,12 @@ pub fn guard<T>(budget: u64, f: impl FnOnce() -> T) -> Outcome<T> {
     verif::reset_sites();
     LAST.with(|l| *l.borrow_mut() = None);
     let r = panic::catch_unwind(AssertUnwindSafe(f));
+    LAST_TICKS.with(|c| c.set(verif::ticks()));
     verif::set_budget(u64::MAX);
     match r {
         Ok(t) => Outcome::Done(t),
         Err(_) => {
-            let site = LAST.with(|l| l.borrow_mut().take()).unwrap_or(PanicSite { file: "?".into(), line: 0, msg: "?".into() });
+            let site = LAST.with(|l| l.borrow_mut().take()).unwrap_or(PanicSite { file: "?".into(), line: 0, msg: "?".into(), func: "?".into() });
             if let Some(rest) = site.msg.strip_prefix("VERIF_BUDGET site=") {
                 let hits = verif::site_hits();
                 let mut hot: Vec<(usize, u64)> = hits.iter().cloned().enumerate().filter(|x| x.1 > 0).collect();
@@ -69,21 +75,45 @@ pub fn guard<T>(budget: u64, f: impl FnOnce() -> T) -> Outcome<T> {
     }
 }
 
-/// `file :: normalised message :: hash of the trimmed source line` – robust to line shifts,
-/// still distinguishes two `unwrap`s in one function.
-pub fn site_signature(s: &PanicSite) -> String {
-    let file = s.file.rsplit("/src/").next().map(|x| x.to_string()).unwrap_or(s.file.clone());
-    let file = if s.file.contains("/src/") && !s.file.contains("/rustc/") && !s.file.contains("/library/") { format!("src/{file}") } else {
-        // panic inside std / a dependency (e.g. VecDeque index): keep only the tail of the path
-        s.file.rsplit('/').take(2).collect::<Vec<_>>().into_iter().rev().collect::<Vec<_>>().join("/")
-    };
-    let mut msg = String::new();
-    let mut last_digit = false;
-    for c in s.msg.chars().take(120) {
-        if c.is_ascii_digit() { if !last_digit { msg.push('N'); } last_digit = true; } else { last_digit = false; msg.push(if c == '\n' { ' ' } else { c }); }
+/// The innermost function of the code under test on the panicking stack (from the symbolised backtrace):
+/// the first frame that is neither the panic machinery / std / a dependency nor this harness.
+fn innermost_asca_fn(bt: &str) -> String {
+    let lines: Vec<&str> = bt.lines().collect();
+    let mut i = 0;
+    while i < lines.len() {
+        let l = lines[i].trim();
+        let Some(k) = l.find(": ") else { i += 1; continue };
+        if !l[..k].chars().all(|c| c.is_ascii_digit()) { i += 1; continue }
+        let name = &l[k + 2..];
+        let at = if i + 1 < lines.len() && lines[i + 1].trim().starts_with("at ") { lines[i + 1].trim()[3..].to_string() } else { String::new() };
+        i += if at.is_empty() { 1 } else { 2 };
+        let foreign_name = ["std::", "core::", "alloc::", "__rustc", "<", "{closure", "rust_", "serde", "hashbrown::"].iter().any(|p| name.starts_with(p));
+        let foreign_path = at.contains("/rustc/") || at.contains("/verif/harness/") || at.contains("/.cargo/") || at.contains("/registry/");
+        if foreign_name || foreign_path { continue }
+        if name.starts_with("vharness::") || name == "main" { break }
+        let file = at.rsplit("/src/").next().map(|x| x.split(':').next().unwrap_or("").to_string()).unwrap_or_default();
+        let short = name.split('<').next().unwrap_or(name).rsplit("::").next().unwrap_or(name);
+        let _ = file;
+        return short.to_string();
     }
-    let line_txt = std::fs::read_to_string(&s.file).ok()
-        .and_then(|t| t.lines().nth(s.line.saturating_sub(1) as usize).map(|l| l.trim().to_string()));
-    let lh = match line_txt { Some(t) if !s.file.contains("/rustc/") => format!("{:08x}", crate::util::hash64(&t) as u32), _ => "-".to_string() };
-    format!("{file} :: {msg} :: {lh}")
+    if std::env::var("VERIF_DEBUG_BT").is_ok() { eprintln!("{bt}"); }
+    "?".into()
+}
+
+fn msg_class(msg: &str) -> String {
+    let m = msg;
+    if m.starts_with("index out of bounds") || m.contains("Out of bounds access") || m.contains("out of bounds") || m.starts_with("insertion index") || m.starts_with("removal index") || m.contains("range end index") || m.contains("range start index") { "index-out-of-bounds".into() }
+    else if m.contains("attempt to") && m.contains("overflow") { "arithmetic-overflow".into() }
+    else if m.contains("`Option::unwrap()` on a `None`") { "unwrap-none".into() }
+    else if m.contains("`Result::unwrap()` on an `Err`") { "unwrap-err".into() }
+    else if m.starts_with("assertion") { "assertion".into() }
+    else if m.contains("unreachable") { "unreachable".into() }
+    else if m.contains("not implemented") { "unimplemented".into() }
+    else { let mut s = String::new(); let mut last_digit = false; for c in m.chars().take(60) { if c.is_ascii_digit() { if !last_digit { s.push('N') } last_digit = true } else { last_digit = false; s.push(if c == '\n' { ' ' } else { c }) } } s }
+}
+
+/// `innermost function of the code under test :: class of the panic message` – function-level call site,
+/// robust to line shifts and to the same defect tripping a different check in another build profile.
+pub fn site_signature(s: &PanicSite) -> String {
+    format!("fn={} :: {}", s.func, msg_class(&s.msg))
 }
